@@ -281,3 +281,60 @@ Proof.
   - intros e [<-|[]] p tc [<-|[<-|[]]] E; injection E as <-; reflexivity.
   - intros e [<-|[]] p tc [<-|[<-|[]]] E; injection E as <-; reflexivity.
 Qed.
+
+(* ... and at the event entry point (round 5).  [DecodeEventData_c] is C12's entry-level model of
+   Entry.DecodeEventDataCtx observed more closely: the same result, plus the units requested - the
+   two slices and two nodes sized by the number of inputs, one map entry per non-indexed input, per
+   indexed input the elementary reader on its topic (value types) or two nodes (hashed topics,
+   returned as raw bytes without a copy), and the decoder's units on the data.  They are bounded by
+   [event_bound e |data|]: the definition and the length of the data; the topic list (how many
+   topics, how wide, what they contain) does not enter at all, nor does any word inside the data.
+   Monotone in the data length. *)
+From FFS Require Import Abi.EntryProofsEvent Abi.DecTotalProofs7.
+Theorem C11_alloc_bound_event :
+  forall (H : bytes -> bytes) (e : entry) (topics : list bytes) (data : bytes),
+    params_wf (e_inputs e) -> params_nz (e_inputs e) ->
+    fst (DecodeEventData_c H e topics data) =
+      DecodeEventData H DecModel.DecodeABIData DecModel.decode_elementary e topics data /\
+    (alloc (DecodeEventData_c H e topics data) <= event_bound e (N.of_nat (length data)))%N /\
+    (forall n', (N.of_nat (length data) <= n')%N ->
+       (event_bound e (N.of_nat (length data)) <= event_bound e n')%N).
+Proof.
+  exact (fun H e topics data Hw Hnz =>
+           conj (twin_DecodeEventData H e topics data)
+             (conj (DecodeEventData_alloc_bound H e topics data Hw Hnz)
+                (fun n' Hn => event_bound_mono e _ n' Hn))).
+Qed.
+Print Assumptions C11_alloc_bound_event.
+
+(* the shape of the event bound: nothing but the inputs of the definition and the data length *)
+Theorem C11_event_bound_shape :
+  forall (e : entry) (cs : list tcomp) (n : N),
+    tree_children (e_inputs e) = Ok cs ->
+    let l := zip_inputs cs (e_inputs e) in
+    event_bound e n = (2 + 2 * N.of_nat (length cs) + walk_bound l + bound (TCTuple (data_args l) []) n)%N.
+Proof. exact (fun e cs n E => event_bound_shape e cs n E). Qed.
+Print Assumptions C11_event_bound_shape.
+
+(* an anonymous event E(string indexed, uint8 indexed, function indexed, bytes, uint8[]): the
+   hypotheses are met; with a 33-byte and a 4096-byte topic and 256 bytes of data it decodes and
+   requests 53 units, below the bound for 256 bytes of data (287); the same data with the array count
+   replaced by 2^32-1 is an error that requested 48 units (nothing for the array). *)
+Example C11_alloc_bound_event_nonvacuous :
+  let H0 := fun _ : bytes => repeat x00 32 in
+  let e := mkEntry TyEvent [x45] true
+             [mkParam (Some (tc_of_ty TString)) true; mkParam (Some (tc_of_ty (TUInt 8))) true;
+              mkParam (Some (tc_of_ty TFunction)) true;
+              mkParam (Some (tc_of_ty TBytes)) false; mkParam (Some (tc_of_ty (TDynArr (TUInt 8)))) false] in
+  let topics := [repeat xff 33; w 7; repeat x11 4096] in
+  let d := w 64 ++ w 128 ++ w 2 ++ [x41; x42] ++ repeat x00 30 ++ w 2 ++ w 7 ++ w 8 in
+  let d' := w 64 ++ w 128 ++ w 2 ++ [x41; x42] ++ repeat x00 30 ++ w 4294967295 ++ w 7 ++ w 8 in
+  params_wf (e_inputs e) /\ params_nz (e_inputs e) /\
+  (is_ok (fst (DecodeEventData_c H0 e topics d)), alloc (DecodeEventData_c H0 e topics d),
+   is_err (fst (DecodeEventData_c H0 e topics d')), alloc (DecodeEventData_c H0 e topics d'),
+   event_bound e (N.of_nat (length d))) = (true, 53%N, true, 48%N, 287%N).
+Proof.
+  split; [|split; [|vm_compute; reflexivity]].
+  - intros p tc [<-|[<-|[<-|[<-|[<-|[]]]]]] E; injection E as <-; reflexivity.
+  - intros p tc [<-|[<-|[<-|[<-|[<-|[]]]]]] E; injection E as <-; reflexivity.
+Qed.
